@@ -21,6 +21,12 @@ CORPUS = [
  ('F15-with-resources-literal', 'src/world/mod.rs', "        Self::from_raw_parts(Archetypes::new(), entity::Allocator::new(), 0, resources)", "        Self { archetypes: Archetypes::new(), entity_allocator: entity::Allocator::new(), len: 0, resources }", ['G3']),
  ('F16-hr-swapped-writer', 'src/archetype/impl_serde.rs', "        if serializer.is_human_readable() {\n            serializer.serialize_newtype_struct(\"Archetype\", &SerializeArchetypeByRow(self))", "        if !serializer.is_human_readable() {\n            serializer.serialize_newtype_struct(\"Archetype\", &SerializeArchetypeByRow(self))", ['X3']),
  ('F18-generation-not-bumped', 'src/entity/allocator/slot.rs', "        self.generation = self.generation.wrapping_add(1);\n        self.location = Some(location);", "        self.location = Some(location);", ['G2']),
+ ('F20-push-len-from-capacity', 'src/entity/sealed/storage.rs', "                Vec::<C>::from_raw_parts(component_column.0.cast::<C>(), length, component_column.1)\n            },\n        );\n        v.push(self.0);", "                Vec::<C>::from_raw_parts(component_column.0.cast::<C>(), component_column.1, component_column.1)\n            },\n        );\n        v.push(self.0);", ['W5']),
+ ('F21-reserve-second-owner-dropped', 'src/entity/sealed/storage.rs', "                Vec::<C>::from_raw_parts(component_column.0.cast::<C>(), length, component_column.1)\n            },\n        );\n        v.reserve(additional);", "                Vec::<C>::from_raw_parts(component_column.0.cast::<C>(), length, component_column.1)\n            },\n        );\n        let mut v = ManuallyDrop::into_inner(v);\n        v.reserve(additional);", ['O1']),
+ ('F22-push-column-as-u64', 'src/entity/sealed/storage.rs', "                Vec::<C>::from_raw_parts(component_column.0.cast::<C>(), length, component_column.1)\n            },\n        );\n        v.reserve(additional);", "                Vec::<u64>::from_raw_parts(component_column.0.cast::<u64>(), length, component_column.1)\n            },\n        );\n        v.reserve(additional);", ['W3']),
+ ('F23-archetypes-insert-result-ignored', 'src/archetypes/impl_serde.rs', "                    if let Err(archetype) = archetypes.insert(archetype) {\n                        return Err(de::Error::custom(format_args!(\n                            \"non-unique `Identifier` {:?}, expected {}\",\n                            // SAFETY: This identifier will not outlive the archetype.\n                            unsafe { archetype.identifier() },\n                            (&self as &dyn Expected)\n                        )));\n                    }", "                    let _ = archetypes.insert(archetype);", ['G5ii']),
+ ('F24-stage-run-sleeps', 'src/system/schedule/stage.rs', "                        (\n                            true,", "                        (\n                            { core::hint::spin_loop(); core::sync::atomic::fence(core::sync::atomic::Ordering::SeqCst); true },", ['S7']),
+ ('F25-cloned-column-dropped', 'src/registry/clone/sealed.rs', "let mut component_vec_b = component_vec_a.clone();", "let mut component_vec_b = (*component_vec_a).clone();", ['O3']),
  ('F19-is-active-no-generation', 'src/entity/allocator/mod.rs', "            if slot.is_active() && slot.generation == identifier.generation {", "            if slot.is_active() {", ['G1']),
 ]
 
